@@ -329,12 +329,13 @@ def MethodFact.shape (m : MethodFact) : Shape :=
   | [a, b] => if !a.writes && a.mode == .rlock && b.mode == .lock then .readThenWrite else .other
   | _ => .other
 
-/-- what the models above assume about each method (receiver type, method, shape);
-`write` for a method that takes the write lock even if it only reads (`Keys`). -/
+/-- what the models above assume about each method (receiver type, method, shape): `read` = the
+operation never changes the state (the code may hold either lock mode), `write` = one section under
+the write lock, `readThenWrite` = read section, then a write section that looks again. -/
 def expectedShapes : List (String × String × Shape) := [
   ("mapimpl", "Clear", .write), ("mapimpl", "Delete", .write), ("mapimpl", "Load", .read),
   ("mapimpl", "LoadAndDelete", .write), ("mapimpl", "Range", .read), ("mapimpl", "Store", .write),
-  ("mapimpl", "Len", .read), ("mapimpl", "Keys", .write),
+  ("mapimpl", "Len", .read), ("mapimpl", "Keys", .read),
   ("AtomicValue", "Load", .read), ("AtomicValue", "Store", .write), ("AtomicValue", "Add", .write),
   ("atomicMap", "Get", .read), ("atomicMap", "GetOrCreate", .readThenWrite),
   ("atomicMap", "Delete", .write), ("atomicMap", "ForEach", .read), ("atomicMap", "Clear", .write),
@@ -352,6 +353,27 @@ def amMethod : AMOp → String × String
   | .get _ => ("atomicMap", "Get") | .getOrCreate _ _ => ("atomicMap", "GetOrCreate")
   | .delete _ => ("atomicMap", "Delete") | .forEach => ("atomicMap", "ForEach") | .clear => ("atomicMap", "Clear")
   | .cload _ => ("AtomicValue", "Load") | .cstore _ _ => ("AtomicValue", "Store") | .cadd _ _ => ("AtomicValue", "Add")
+
+/-- does the extracted shape of a method provide what the model assumes? -/
+def Shape.provides : Shape → Shape → Bool
+  | .read, .read => true
+  | .write, .read => true      -- holding the write lock while only reading is fine
+  | .write, .write => true
+  | .readThenWrite, .readThenWrite => true
+  | _, _ => false
+
+def factFor (facts : List MethodFact) (recv method : String) : Option MethodFact :=
+  facts.find? fun f => f.recv == recv && f.method == method
+
+/-- every method the models rely on exists in the source with a well-formed lock discipline of the
+assumed shape, and the source has no method on these types that the models do not know. -/
+def factsMatch (facts : List MethodFact) : Bool :=
+  facts.all (·.wellLocked) &&
+  expectedShapes.all (fun e =>
+    match factFor facts e.1 e.2.1 with
+    | some f => f.shape.provides e.2.2
+    | none => false) &&
+  facts.all (fun f => expectedShapes.any fun e => e.1 == f.recv && e.2.1 == f.method)
 
 def shapeOf (facts : List (String × String × Shape)) (recv method : String) : Shape :=
   match facts.find? fun f => f.1 == recv && f.2.1 == method with
